@@ -27,13 +27,15 @@ NonMin64(f) == <<Byte0(f), f.mask * 128 + 127>> \o BE8(f.len) \o (IF f.mask = 1 
 Prefixes(s) == { SubSeq(s, 1, k) : k \in 0..Len(s) }
 HugeWires == { <<130, 127, 128, 0, 0, 0, 0, 0, 0, 0, 9, 9>>, <<130, 255, 0, 0, 0, 0, 128, 0, 0, 0, 1, 2, 3, 4, 9>>,
                <<130, 127, 0, 0, 0, 1, 0, 0, 0, 0, 7>>, <<131, 127, 255, 255, 255, 255, 255, 255, 255, 255>> }
-Wires == UNION { Prefixes(Encode(f) \o <<129>>) \cup Prefixes(NonMin16(f)) \cup Prefixes(NonMin64(f)) : f \in SmallFrames }
-         \cup { Encode(f) : f \in BoundaryFrames }
-         \cup { SubSeq(Encode(f), 1, Len(Encode(f)) - 1) : f \in BoundaryFrames }
+\* (an operator with parameters on purpose: TLC evaluates parameterless constant definitions at start-up in every
+\*  configuration, also in those that never use them)
+WiresOf(SF, BF) == UNION { Prefixes(Encode(f) \o <<129>>) \cup Prefixes(NonMin16(f)) \cup Prefixes(NonMin64(f)) : f \in SF }
+         \cup { Encode(f) : f \in BF }
+         \cup { SubSeq(Encode(f), 1, Len(Encode(f)) - 1) : f \in BF }
          \cup HugeWires
 
 \* ---- 1. the decoder under every delivery schedule
-Init == InitOn(Wires)
+Init == InitOn(WiresOf(SmallFrames, BoundaryFrames))
 Spec == Init /\ [][Next]_vars /\ WF_vars(Next)
 
 \* ---- 2. encoder model = denotation, and the round trip, on concrete frames (a state space of frames)
@@ -75,7 +77,7 @@ HdrLemma == phase = "hdr2" =>
 XorInit == /\ wire \in { <<a>> : a \in 0..255 } /\ fr = NoFrame
            /\ sent = 0 /\ eof = FALSE /\ cons = 0 /\ phase = "xor" /\ res = "lemma"
 GenXor == phase = "xor" => PrintT(ToJson([k |-> "xor", a |-> wire[1], row |-> [b \in 1..256 |-> wire[1] ^^ (b - 1)]]))
-WireInit == /\ wire \in Wires /\ fr = NoFrame
+WireInit == /\ wire \in WiresOf(SmallFrames, BoundaryFrames) /\ fr = NoFrame
             /\ sent = 0 /\ eof = FALSE /\ cons = 0 /\ phase = "wire" /\ res = "lemma"
 GenWire == phase = "wire" => PrintT(ToJson([k |-> "wire", w |-> wire, exp |-> Decode(wire)]))
 
